@@ -142,6 +142,8 @@ type fleetExec struct {
 	hook  fleetHook
 	// lastChmap describes the most recent successful ChangeMapping (for the hooks).
 	lastChmap *chmapInfo
+	// disk holds the checkpoints of each node (C08), oldest first.
+	disk map[int][]*checkpoint
 }
 
 // fleetHook is the per-property part of the executor.
